@@ -871,8 +871,59 @@ def rule_llr_passthrough(repo: Repo, rep: Report) -> int:
     return n
 
 
+def rule_mask_layout(repo: Repo, rep: Report) -> int:
+    """Sibling agreement on shared storage: the BP polar decoder takes over `encoder.mask_dict` (the table of upper-branch
+    positions per butterfly stage) whenever the encoder has already filled it, and otherwise builds its own.  Both
+    producers must therefore lay the table out identically - row i for the same stage - or the decoder's message passing
+    pairs row i with another stage's distance, depending on whether the encoder was used before the decoder was built.
+    Both constructions are evaluated (own arithmetic) for N = 4, 8, 16 and compared entry by entry."""
+    from ..constfold import Unfoldable
+    from ..frag import FragRaise, FragReturn, run_fragment
+
+    dec_init = repo.func(PBP, "BeliefPropagationPolarDecoder.__init__")
+    ci = repo.cls(PE, "PolarCodeEncoder")
+    fi = repo.method(ci, "polar_transform")
+    shares = [x for x in ast.walk(dec_init.node) if isinstance(x, ast.Attribute) and x.attr == "mask_dict" and isinstance(x.value, ast.Name) and x.value.id != "self"]
+    if not shares:
+        rep.ok("MASK-LAYOUT", dec_init, "stage table of the BP polar decoder", "built by the decoder itself: nothing shared with the encoder", node=dec_init.node, nontrivial=False)
+        return 1
+    builders = [s for s in ast.walk(dec_init.node) if isinstance(s, ast.If) and "mask_dict" in unparse(s.test) and any(isinstance(t, ast.Assign) and any(attr_chain(g) == "self.mask_dict" for g in t.targets) for t in ast.walk(s))]
+    funcs = {nm: f.node for nm, f in ci.module.functions.items()}
+    construct = f"`{unparse(shares[0])}` reused by the decoder vs. the decoder's own table"
+
+    def ints(t):
+        return [[int(v) for v in r] for r in t] if isinstance(t, list) and all(isinstance(r, list) for r in t) else None
+
+    if len(builders) != 1:
+        rep.undecided("MASK-LAYOUT", dec_init, construct, "the decoder's own construction of the table was not found", node=dec_init.node)
+        return 1
+    for m in (2, 3, 4):
+        N = 2**m
+        enc_attrs = {"self.code_length": N, "self.m": m, "self.mask_dict": None, "self.polar_i": False, "self.dtype": "torch.float32", "self.device": "cpu"}
+        dec_attrs = {"self.code_length": N, "self.m": m, "self.mask_dict": None}
+        try:
+            try:
+                run_fragment(fi.body, {"u": [[0] * N], "return_arr": False}, enc_attrs, funcs=funcs, materialise=True, max_steps=2000000, attrs_live=True)
+            except FragReturn:
+                pass
+            run_fragment([builders[0]], {}, dec_attrs, funcs=funcs, materialise=True, max_steps=2000000, attrs_live=True)
+            a, b = ints(enc_attrs.get("self.mask_dict")), ints(dec_attrs.get("self.mask_dict"))
+        except (Unfoldable, FragRaise, FragReturn, TypeError, IndexError, ValueError) as exc:
+            rep.undecided("MASK-LAYOUT", dec_init, construct, f"N = {N}: not evaluable ({exc})", node=shares[0])
+            return 1
+        if a is None or b is None:
+            rep.undecided("MASK-LAYOUT", dec_init, construct, f"N = {N}: a table is not a matrix of positions", node=shares[0])
+            return 1
+        if a != b:
+            rep.violation("MASK-LAYOUT", dec_init, construct, f"N = {N}: after an encoding the encoder holds the stage table {a}, the decoder's own construction gives {b}: a decoder built from an encoder that has already encoded works on a table whose row i belongs to another stage than its update rules assume (wrong factor graph or an index error), one built from a fresh encoder does not - the two producers of the shared table must agree", node=shares[0])
+            return 1
+    rep.ok("MASK-LAYOUT", dec_init, construct, "both constructions evaluated for N = 4, 8, 16: identical tables, so the decoder does not depend on whether the encoder was used first", node=shares[0])
+    return 1
+
+
 def run(repo: Repo, rep: Report, tier: str) -> None:
     n = rule_kernel(repo, rep)
+    n += rule_mask_layout(repo, rep)
     n += rule_bp_polar_schedule(repo, rep)
     n += rule_llr_passthrough(repo, rep)
     n += rule_bp_polar_answers(repo, rep)
